@@ -90,14 +90,14 @@ def clause_sac(cases, ctx: Ctx):
     """case: {num_envs, tau, pf, autotune, key}"""
     out = []
     for ci, c in enumerate(cases):
-        E, tau, pf, auto = c["num_envs"], c["tau"], c["pf"], c["autotune"]
+        E, tau, pf, auto, T = c["num_envs"], c["tau"], c["pf"], c["autotune"], c.get("num_steps", 1)
         env = learnx.tiny_env("box")
         pol = learnx.make_policy("sac", env, c["key"], width_size=8, depth=1)
-        algo = learnx.make_algo("SAC", E, 1, tau=tau, policy_frequency=pf, autotune=auto, buffer_size=64, learning_starts=3, batch_size=2)
+        algo = learnx.make_algo("SAC", E, T, tau=tau, policy_frequency=pf, autotune=auto, buffer_size=64, learning_starts=3, batch_size=2)
         cb = LoggingCallback(learnx.RecordingBackend(), name="c10")
         reset, it = _driver(algo, cb)
         st = reset(env, pol, jr.key(c["key"] + 1))
-        desc = f"SAC num_envs={E} tau={tau} policy_frequency={pf} autotune={auto}"
+        desc = f"SAC num_envs={E} num_steps={T} tau={tau} policy_frequency={pf} autotune={auto}"
         arr = lambda q: [x.astype(np.float64) for x in learnx.leaves_np(eqx.filter(q, eqx.is_inexact_array))]
         t1, t2 = arr(st.qf1_target), arr(st.qf2_target)
         if not (learnx.same_bits(st.qf1_target, st.qf1) and learnx.same_bits(st.qf2_target, st.qf2)):
@@ -109,8 +109,8 @@ def clause_sac(cases, ctx: Ctx):
             ctx.transitions += 1
             if int(st.iteration_count) != n:
                 out.append((ci, "C10/sac/iteration-count", f"{desc}: iteration_count after {n} iterations = {int(st.iteration_count)}"))
-            if env_steps(st) != E * (3 + n):
-                out.append((ci, "C10/sac/step-budget", f"{desc}: after {n} iterations the environments were stepped {env_steps(st)} times, expected {E * (3 + n)}"))
+            if env_steps(st) != E * (3 + n * T):
+                out.append((ci, "C10/sac/step-budget", f"{desc}: after {n} iterations the environments were stepped {env_steps(st)} times, expected {E * (3 + n * T)}"))
             t1, t2 = polyak_np(arr(st.qf1), t1, tau), polyak_np(arr(st.qf2), t2, tau)
             for name, ref, got in (("qf1_target", t1, arr(st.qf1_target)), ("qf2_target", t2, arr(st.qf2_target))):
                 if not all(np.allclose(g, r, rtol=2e-5, atol=2e-6) for g, r in zip(got, ref)):
@@ -206,7 +206,7 @@ def explore(ctx: Ctx):
     key = key_ints(ctx.seed, 1)[0]
     ctx.rule = (
         "iteration automaton observed after every real iteration (n = 0..7): DQN over num_envs{1,2} x num_steps{1,2,3} x "
-        "target_update_interval{1,2,3,5}; SAC over tau{.005,.5,1} x policy_frequency{1,2,3} x autotune x num_envs{1,2}; on-policy "
+        "target_update_interval{1,2,3,5}; SAC over tau{.005,.5,1} x policy_frequency{1,2,3} x autotune x num_envs{1,2} at num_steps 1, and num_steps{2,3,4} x policy_frequency{2,3,4,6} (shared and coprime factors); on-policy "
         "algorithms over num_envs x num_steps; learn() for every total_timesteps in 0..3*num_envs*num_steps+1 with a recording "
         "backend. non-trivial = a configuration in which the schedule has both update and non-update iterations (interval>1, "
         "policy_frequency>1) or a total_timesteps that is not a multiple of the iteration size"
@@ -215,17 +215,21 @@ def explore(ctx: Ctx):
                        "Polyak recursion compared in float64 at 2e-5 relative"]
     dqn = [dict(num_envs=E, num_steps=T, interval=I, learning_starts=2, key=key) for E in (1, 2) for T in (1, 2, 3) for I in (1, 2, 3, 5)]
     sac = [dict(num_envs=E, tau=tau, pf=pf, autotune=a, key=key) for E in (1, 2) for tau in (0.005, 0.5, 1.0) for pf in (1, 2, 3) for a in (True, False)]
+    # num_steps > 1: the gate counts iterations, not environment steps (num_steps sharing a factor with policy_frequency tells them apart)
+    sac_T = [dict(num_envs=E, num_steps=T, tau=0.5, pf=pf, autotune=a, key=key) for E in (1, 2) for T in (2, 3, 4) for pf in (2, 3, 4, 6) for a in (True, False)]
     onp = [dict(algo=a, num_envs=E, num_steps=T, key=key) for a in ("PPO", "A2C", "REINFORCE") for E in (1, 2) for T in (2, 3)]
     if not thorough:
         dqn = [c for c in dqn if not (c["num_envs"] == 2 and c["num_steps"] == 3)]
         sac = [c for c in sac if c["num_envs"] == 1 or (c["tau"] == 0.5 and c["pf"] == 2)]
+        sac_T = [c for c in sac_T if c["num_envs"] == 1 and c["autotune"] and (c["num_steps"], c["pf"]) in ((2, 2), (2, 4), (3, 3), (4, 6), (3, 2))]
         onp = [c for c in onp if c["num_steps"] == 2 or c["algo"] == "PPO"]
+    sac = sac + sac_T
     for c in dqn:
         if c["interval"] > 1:
             ctx.nontriv(("dqn", c["num_envs"], c["num_steps"], c["interval"]))
     for c in sac:
         if c["pf"] > 1 or c["tau"] < 1:
-            ctx.nontriv(("sac", c["num_envs"], c["tau"], c["pf"], c["autotune"]))
+            ctx.nontriv(("sac", c["num_envs"], c.get("num_steps", 1), c["tau"], c["pf"], c["autotune"]))
     ctx.run_parallel("dqn", dqn, workers=6, threads=2)
     ctx.run_parallel("sac", sac, workers=6, threads=2)
     ctx.run_parallel("onpolicy", onp, workers=4, threads=2)
